@@ -983,6 +983,17 @@ impl<'a> WriteTxn<'a> {
         let removed_node_props = self.memtable.removed_node_properties_for_wal();
         let removed_edge_props = self.memtable.removed_edge_properties_for_wal();
 
+        // Values nested deeper than the decoder accepts could be written but never read back:
+        // refuse the transaction before anything is logged.
+        let too_deep = |v: &crate::property::PropertyValue| {
+            v.exceeds_nesting(nervusdb_api::MAX_PROPERTY_NESTING)
+        };
+        if node_properties.iter().any(|(_, _, v)| too_deep(v))
+            || edge_properties.iter().any(|(_, _, _, _, v)| too_deep(v))
+        {
+            return Err(Error::WalProtocol("property value nested too deeply"));
+        }
+
         let run = self.memtable.freeze_into_run(self.txid);
 
         // 1) Append WAL and fsync (durability Full by default).
